@@ -338,8 +338,8 @@ def reply_size_on_received_text(chk, ctx):
         arg = lens[0].args[0] if lens else None
         src = None
         if isinstance(arg, ast.Name):
-            ds = [x for x in name_defs(f, arg.id) if isinstance(x, ast.Assign)]
-            src = [norm(x.value) for x in ds]
+            ds = sorted((x for x in name_defs(f, arg.id) if isinstance(x, ast.Assign) and x.lineno < c.lineno), key=lambda x: x.lineno)
+            src = [norm(x.value) for x in ds[-1:]]      # the nearest preceding binding (straight-line code up to the test)
         ok = src is not None and len(src) == 1 and src[0] in ("message.body", "message.body.decode('utf8')", "message_body.decode('utf8')")
         chk.ob("C16.R5", "reply size test measures the received body", ok, str(src), key="%s | size test measures `%s` = %s, not the received body" % (f.qname, norm(arg) if arg is not None else "?", src), where=td.line(c),
                message="the quota is on the text the worker sent: a re-serialisation has a different length (separators, whitespace, escapes), so replies at the boundary are decided wrongly")
